@@ -21,6 +21,7 @@ import (
 	"fmt"
 	"go/token"
 	"go/types"
+	"os"
 
 	"golang.org/x/tools/go/ssa"
 )
@@ -161,6 +162,14 @@ func ruleNUnchecked(w *World, r *Report) {
 						if c2, ok := in2.(*ssa.Call); ok {
 							if recv, m, class, ok := w.isNavCall(c2); ok && class == "move" && directionalMoves[m] {
 								hk = cursorKey(recv)
+								// the cursor is one of the helper's parameters: the caller's argument
+								if p, isP := strip(recv).(*ssa.Parameter); isP {
+									for i, q := range f.Params {
+										if q == p && i < len(c.Call.Args) {
+											hk = cursorKey(c.Call.Args[i])
+										}
+									}
+								}
 							}
 						}
 					})
@@ -168,6 +177,12 @@ func ruleNUnchecked(w *World, r *Report) {
 						moves = append(moves, mv{c, hk, f.Name()})
 					}
 				}
+			}
+		}
+		if os.Getenv("XPDEBUG") == "unchecked" && len(moves) > 0 {
+			for _, m := range moves {
+				_, _, ok := falseEdgeOf(m.call)
+				fmt.Printf("  %s: move %s key=%s tested=%v at %s\n", fnName(fn), m.name, m.key, ok, w.instrPos(m.call))
 			}
 		}
 		for _, m := range moves {
@@ -214,7 +229,13 @@ func ruleNUnchecked(w *World, r *Report) {
 					case *ssa.Call:
 						// the node test applied to the cursor: a call through a function value
 						// (or of a predicate-typed function) with the cursor as its argument
-						if !x.Call.IsInvoke() && len(x.Call.Args) >= 1 && w.isPredicateFuncType(x.Call.Value.Type()) {
+						isMove := false
+						for _, o := range moves {
+							if o.call == x {
+								isMove = true
+							}
+						}
+						if !isMove && !x.Call.IsInvoke() && len(x.Call.Args) >= 1 && w.isPredicateFuncType(x.Call.Value.Type()) {
 							if cursorKey(x.Call.Args[len(x.Call.Args)-1]) == m.key {
 								stale = in
 							}
